@@ -29,6 +29,20 @@ NEEDS={
  'C19-2':"diffusion loop runs one layer too far: lower boundary no longer fixed",
  'C20-1':"binary search misses the right neighbour in the last gap of the series",
  'C20-2':"mean of min/max groundwater level by integer division: needs an odd sum",
+ 'C03-1':"file pool returns the cached slice after releasing the mutex: needs two runs of a session hitting the same uncached file",
+ 'C03-2':"package-level sync.Map cache of crop-type names shared by all runs: needs two runs whose per-run crop tables differ",
+ 'C09-1':"root limit clamp moved from PhytoOut to Input (WURZMAX only): needs a shallow profile and a crop with WUMAXPF >= 12",
+ 'C09-2':"floor and cap of per-layer N uptake applied in the wrong order: needs a rooted layer with less than 0.75 kg N/ha",
+ 'C11-1':"dispatcher waits once instead of until a slot is free: needs more lines than slots and a log message arriving while it waits",
+ 'C11-2':"file pool key folded to lower case: needs two runs of a session reading files whose paths differ only in case",
+ 'C13-1':"station height/wind height copied unconditionally: needs a configured altitude, a layout without station line and ETpot 3/4",
+ 'C13-2':"CSV soil reader divides the drainage fraction by 100: needs a tile-drained soil given as CSV",
+ 'C14-1':"batch-line keys looked up by yaml tag: the five keys whose tag carries ',omitempty' are ignored on the line",
+ 'C14-2':"ResultFileFormat on the line clears ResultFileExt: needs both keys (line/line or line/file)",
+ 'C15-1':"groundwater update skipped for steps below 0.01 dm: needs a slowly moving table",
+ 'C15-2':"pedotransfer results rounded to whole Vol.%: needs PTF 1 and a Corg-free heavy silty clay",
+ 'C18-1':"initial-crop guard of the INITCONCN overrides lost its third conjunct: needs a permanent crop following a different crop",
+ 'C18-2':"organ index of PRO/DEAD overrides validated against the number of stages: needs more organs than stages",
 }
 NOTES={
  'C01-2':"first evaluation inconclusive (anchor text was the edited statement); anchors made prefix-based, then detected by C01.substeps.*",
@@ -39,15 +53,23 @@ NOTES={
  'C20-2':"missed at first (set-up not covered); detected after the set-up/daily regions and sine lemma points were added",
  'C19-1':"first evaluation hit a transient lifter bug (load error); detected on re-evaluation",
  'C19-2':"first evaluation hit a transient lifter bug (load error); detected on re-evaluation",
- 'C04-1':"not detected: the defect is inside the per-year file reader (text/scanner code is outside the encoded part)",
+ 'C04-1':"missed at first (file readers not encoded); detected after the three readers were executed on token files (scanner model) and two year files are read in turn into the same buffer",
  'C04-2':"missed at first (all years had the same length in the harness); detected after years of different length were used",
  'C05-1':"missed at first; detected after the sub-step loop region with stubbed Water/PhytoOut/Nitro was added (interpreter replay)",
  'C05-2':"not detected by C05 (date text of records is not encoded there); detected by C12",
  'C08-2':"missed at first by C08 (caught by C06); detected by C08 after the day-level uptake obligation was added",
  'C10-1':"original patch targets the shift loop that was later repaired (fix c494e38); the rebased variant is detected by C10.shift.*",
  'C10-2':"missed at first; detected after the fertiliser-row region (dueng) was lifted",
- 'C16-2':"not detected: the automatic-fertilisation branch of Nitro is outside the lifted regions",
- 'C17-2':"not detected: hermes2go's -lines handling is outside the encoded part",
+ 'C16-2':"missed at first; detected after all six automatic-N sites of Nitro were lifted (C16.autofert.*)",
+ 'C17-2':"missed at first; detected after the -lines parsing and the dispatch loop of hermes2go were lifted (spec C17L)",
+ 'C03-2':"missed by the FilePool harness; detected after the two-run non-interference mode (package state touched by a run) was added",
+ 'C09-1':"first evaluation unconfirmed (model of the stubbed root() did not replay); detected after the harness searches natively for a temperature sum that makes the real root() return the model's value",
+ 'C09-2':"missed at first (growth part of PhytoOut not covered); detected after the N uptake distribution region was lifted",
+ 'C11-1':"missed at first (dispatcher not encoded); detected after doConcurrentBatchRun was executed with the sequential select abstraction (interpreter replay)",
+ 'C13-1':"C13 was not claimed when the seed was made; detected by the weather layout harness",
+ 'C13-2':"C13 was not claimed when the seed was made; detected by the soil text/CSV harness",
+ 'C14-1':"first evaluation inconclusive (package initialiser used reflect.Type, unmodelled); detected after reflect.Type/StructField/StructTag were modelled",
+ 'C15-1':"first evaluation inconclusive (anchor was the edited statement); detected after fall-back anchors were added",
 }
 rows=[]
 for d in sorted(os.listdir(ROOT)):
